@@ -701,3 +701,150 @@ def sad_invariant(ctl, kernel):
         bad.append(f'{len(missing)} SA(s) of tracked CHILD_SAs are not in the kernel: '
                    + ', '.join(f'{k[0]}/{k[1]}/{k[2].hex() if isinstance(k[2], bytes) else k[2]}' for k in sorted(missing, key=str)))
     return bad
+
+
+# ----------------------------------------------------------------------------- the real main_loop, driven by a script
+class LoopEnd(BaseException):
+    """raised by the scripted select() when the script is exhausted: the only way out of `while True`"""
+
+
+class FakeSock:
+    def __init__(self, loop, kind, family=None):
+        self.loop, self.kind, self.family = loop, kind, family
+        self.addr = None
+        self.sent = []
+        self.closed = False
+
+    def bind(self, addr):
+        self.addr = addr
+        if self.kind == 'udp':
+            self.loop.udp[addr[0]] = self
+
+    def listen(self, *a):
+        pass
+
+    def setsockopt(self, *a):
+        pass
+
+    def close(self):
+        self.closed = True
+
+    # --- UDP
+    def recvfrom(self, n):
+        ev = self.loop.current
+        return ev['data'], (ev['src'], ev.get('sport', 500))
+
+    def sendto(self, data, dst):
+        self.loop.n_sendto += 1
+        f = self.loop.send_fault
+        if f is not None and f(self.loop.n_sendto - 1, data, dst):
+            raise self.loop.send_exc('injected transmission failure')
+        self.loop.outbox.append((self.addr[0] if self.addr else None, dst, data))
+
+    # --- netlink
+    def recv(self, n):
+        return self.loop.current.get('data', b'')
+
+    # --- control
+    def accept(self):
+        conn = FakeSock(self.loop, 'conn')
+        self.loop.conns.append(conn)
+        return conn, ('127.0.0.1', 1)
+
+    def sendall(self, data):
+        self.sent.append(data)
+
+
+class Loop:
+    """runs IkeSaController.main_loop over scripted events.  events: dicts {'kind': 'udp'|'xfrm'|'control'|'tick', ...};
+    one event per loop iteration; the clock advances by `tick_s` seconds per iteration."""
+
+    def __init__(self, endpoint, tick_s=1):
+        self.E = endpoint
+        self.ctl = endpoint.obj
+        self.udp = {}
+        self.outbox = []
+        self.conns = []
+        self.n_sendto = 0
+        self.send_fault = None
+        self.send_exc = OSError
+        self.tick_s = tick_s
+        self.iterations = 0
+        self.on_iteration = None
+
+    def run(self, events):
+        import socket as _socket
+        ic, x = MODS['ikesacontroller'], MODS['xfrm']
+        self.events = list(events)
+        self.xfrm_sock = FakeSock(self, 'xfrm')
+        self.control = None
+        loop = self
+
+        def mk_socket(family=None, type_=None, proto=0):
+            if type_ == _socket.SOCK_STREAM:
+                loop.control = FakeSock(loop, 'control')
+                return loop.control
+            return FakeSock(loop, 'udp', family)
+        fake = types.SimpleNamespace(socket=mk_socket, AF_INET=_socket.AF_INET, AF_INET6=_socket.AF_INET6, SOCK_DGRAM=_socket.SOCK_DGRAM,
+                                     SOCK_STREAM=_socket.SOCK_STREAM, SOL_SOCKET=_socket.SOL_SOCKET, SO_REUSEADDR=_socket.SO_REUSEADDR,
+                                     gaierror=_socket.gaierror, error=_socket.error)
+
+        def select(rlist, wlist, xlist, timeout=None):
+            if loop.on_iteration is not None and loop.iterations:
+                loop.on_iteration(loop)
+            if not loop.events:
+                raise LoopEnd()
+            loop.iterations += 1
+            ENV.now = ENV.now + loop.tick_s
+            ev = loop.events.pop(0)
+            if callable(ev):
+                ev = ev(loop)           # late-bound event (e.g. the reply to what the daemon sent meanwhile)
+                if ev is None:
+                    ev = {'kind': 'tick'}
+            loop.current = ev
+            k = ev['kind']
+            if k == 'udp':
+                return [loop.udp[str(ev['dst'])]], [], []
+            if k == 'xfrm':
+                return [loop.xfrm_sock], [], []
+            if k == 'control':
+                return [loop.control], [], []
+            return [], [], []
+        saved = (ic.socket, ic.select, x.Xfrm.__dict__.get('get_socket'))
+        ic.socket, ic.select = fake, select
+        x.Xfrm.get_socket = classmethod(lambda cls: loop.xfrm_sock)
+        try:
+            with self.E:
+                try:
+                    self.ctl.main_loop()
+                except LoopEnd:
+                    return True
+            return False
+        finally:
+            ic.socket, ic.select = saved[0], saved[1]
+            if saved[2] is not None:
+                x.Xfrm.get_socket = saved[2]
+
+
+def acquire_bytes(me, peer, index, sport=8765, dport=23, proto=6):
+    """a kernel XFRM_MSG_ACQUIRE as it arrives on the netlink socket"""
+    import socket
+    from ctypes import sizeof
+    x, nl = MODS['xfrm'], MODS['netlink']
+    acq = x.XfrmUserAcquire(id=x.XfrmId(daddr=x.XfrmAddress.from_ipaddr(peer)), saddr=x.XfrmAddress.from_ipaddr(me),
+                            sel=x.XfrmSelector(saddr=x.XfrmAddress.from_ipaddr(me), sport=sport, daddr=x.XfrmAddress.from_ipaddr(peer),
+                                               dport=dport, proto=proto, family=socket.AF_INET),
+                            policy=x.XfrmUserPolicyInfo(index=index << 3 | 1))
+    attr = x.Xfrm._attribute_factory(x.XFRMA_TMPL, x.XfrmUserTmpl(family=socket.AF_INET))
+    body = bytes(acq) + bytes(attr)
+    hdr = nl.NetlinkHeader(length=sizeof(nl.NetlinkHeader) + len(body), type=x.XFRM_MSG_ACQUIRE, seq=1, pid=0, flags=0)
+    return bytes(hdr) + body
+
+
+def expire_bytes(spi, hard):
+    from ctypes import sizeof
+    x, nl = MODS['xfrm'], MODS['netlink']
+    exp = x.XfrmUserExpire(state=x.XfrmUserSaInfo(id=x.XfrmId(spi=x.create_byte_array(spi))), hard=1 if hard else 0)
+    body = bytes(exp)
+    hdr = nl.NetlinkHeader(length=sizeof(nl.NetlinkHeader) + len(body), type=x.XFRM_MSG_EXPIRE, seq=1, pid=0, flags=0)
+    return bytes(hdr) + body
